@@ -863,7 +863,7 @@ struct TreeEngine : Engine
     std::string rule(std::string const &prop) const override
     {
         if (prop == "C03") return "items are seeded insert/remove histories (1-4 clients, key universe 4..4096, node pool 4..1024 - one pool in five mapped across a 4 GiB address boundary -, one run in 400 with a 70000-node pool, and in the thorough tier rare 300000-node monotone fills followed by a lookup of every key) during and after which every iterator form (functions, lower- and upper-case macros) is compared with a recursive reference traversal and tear-down is driven with 0-3 interruptions (started at the root or at a seeded element; resumed with the saved cursor, from scratch, or at a seeded element), each yielded node poisoned at once; distinct_nontrivial = HyperLogLog estimate of distinct tree shapes (structure + balance/colour bits) on which the iterator or structural oracle ran";
-        return "items are seeded multi-client insert (library insert or manual link + insert_adjust) / duplicate-insert (other object or the resident object itself) / remove / lookup (node-shaped or bare-key probe) / burst histories on the real tree with a std::map reference model and three comparator styles (sign, difference, huge magnitudes); all structural invariants are re-derived by an O(n) walk after every single insert and remove (every 4096th in the rare 70000-node runs); distinct_nontrivial = HyperLogLog estimate of distinct tree shapes (structure + balance/colour bits) reached";
+        return "items are seeded multi-client insert (library insert or manual link + insert_adjust) / duplicate-insert (other object or the resident object itself) / remove / lookup (node-shaped or bare-key probe) / burst histories on the real tree with a std::map reference model and three comparator styles (sign, difference, huge magnitudes); all structural invariants are re-derived by an O(n) walk after every single insert and remove (every 4096th in the rare 70000-node runs; the thorough tier adds rare 300000-node monotone fills and, one history in four million, a 14930351-element Fibonacci-shaped AVL tree of 34 levels / a 6000000-element ascending red-black tree of 42 levels with a lookup of every key and whole-height removals); distinct_nontrivial = HyperLogLog estimate of distinct tree shapes (structure + balance/colour bits) reached";
     }
     std::vector<std::string> assumptions(std::string const &prop) const override
     {
